@@ -178,6 +178,12 @@ PROBES = {
   for (int i = 0; i < 4; i++) { char nm[32]; sprintf(nm, "des_psbox_%d", i); PW32(nm, psbox[i], 256); }
 #endif
 ''',
+ "alg-gost3411-2012-core.c": r'''
+#if INCLUDE_gost_yescrypt
+  for (int i = 0; i < 8; i++) { char nm[32]; sprintf(nm, "sha512_gost_Ax_%d", i); PW64(nm, (const uint64_t *)Ax[i], 256); }
+  for (int i = 0; i < 12; i++) { char nm[32]; sprintf(nm, "sha512_gost_C_%d", i); PW64(nm, (const uint64_t *)C[i].QWORD, 8); }
+#endif
+''',
  "crypt-yescrypt.c": r'''
 #if INCLUDE_yescrypt || INCLUDE_scrypt
   PNX("sizeof_crypt_yescrypt_internal", sizeof(crypt_yescrypt_internal_t));
@@ -316,6 +322,9 @@ def emit_words(v, steps):
         o.append("/-- %s step schedule: (f, a, b, c, d, x, t, s) -/" % k)
         o.append("def %s_steps : List (Nat × Nat × Nat × Nat × Nat × Nat × UInt32 × Nat) := [\n" % k +
                  ",\n".join("  (%d, %d, %d, %d, %d, %d, %d, %d)" % r for r in steps[k]) + "]\n")
+    if any(k.startswith("sha512_gost_Ax") for k in v["W"]):
+        o.append("def gost_Ax : List (List UInt64) := [" + ", ".join("sha512_gost_Ax_%d" % i for i in range(8)) + "]\n")
+        o.append("def gost_C : List (List UInt64) := [" + ", ".join("sha512_gost_C_%d" % i for i in range(12)) + "]\n")
     o.append("end Xc.Gen\n")
     return "\n".join(o)
 
